@@ -26,8 +26,21 @@
     the subscription path does not run below it; values are drawn from [Vals];
     the stamped origin is not [meta]; no origin is carried in a path
     ([no_porigin], open finding 7.21).  [Vals] is any set of values the client
-    can decode and on which value.Equal implies equal decoding (this excludes a
-    leaf alternating between +0 and -0, open finding). *)
+    can decode, on which value.Equal implies equal decoding (this excludes a
+    leaf alternating between +0 and -0, open finding) and proto.Equal implies
+    identity (no two NaN payloads).
+
+    Sessions.  [IReset] in a stream is a stream failure: the collector resets
+    the target (Cache.Reset: every root cut off, one <root>/* delete each) and a
+    new session starts; [replay] restarts from nothing.  [stream_ok] requires
+    ONE session for every target, so [C01_relay_faithful] is the statement for
+    uninterrupted sessions (for these it is complete).  The statement over
+    sessions -- same conclusion with [stream_ok] allowing [IReset] in the
+    subscribed target's and in the other targets' streams -- is not proved
+    (the wildcard deletes of a reset concern many keys at once, which the
+    invariant's last-entry-per-key bookkeeping does not yet carry); it is
+    covered by the correspondence run (families reconnect, burst), K_P on the
+    observations, and the instance [C01_relay_reconnect_example]. *)
 From Gnmi Require Import Base.Prelude CTree.CTreeModel Pipeline.PipelineModel Pipeline.PipelineCheck
   Pipeline.PipelineProofs.
 
@@ -43,6 +56,7 @@ Theorem C01_relay_faithful :
          (cq : cquery) (s : list item) (cfg : config) (ss : streams) (sched : list action),
     (forall v : tv, Vals v -> to_scalar v <> None) ->
     (forall a b : tv, Vals a -> Vals b -> tv_equal a b = true -> to_scalar a = to_scalar b) ->
+    (forall a b : tv, Vals a -> Vals b -> tv_eqb a b = true -> a = b) ->
     Q = name :: Qr -> glob_free Q = true ->
     sub_query cq = Q -> g_target (cq_prefix cq) = name ->
     complete_path (cq_prefix cq) (cq_path cq) = Some Qr ->
@@ -154,6 +168,18 @@ Theorem C01_rejected_update_keeps_deletes :
     = [(["dev1"; "openconfig"; "a"; "y"], SInt 2)].
 Proof. exact Refuted.rejected_update_keeps_deletes. Qed.
 Print Assumptions C01_rejected_update_keeps_deletes.
+
+(** a stream failure while the client is subscribed: the second session re-sends
+    only one leaf, edited, with a smaller timestamp; model and replay agree on
+    the new session's state *)
+Theorem C01_relay_reconnect_example :
+  pipeline Refuted.cfg1 [("dev1", Refuted.s_sessions)] RelayExample.q
+      [AIngest "dev1"; AIngest "dev1"; ASubscribe; ASend; ASend; ASend; AIngest "dev1"; ASend; AIngest "dev1"]
+    = VLeaves [(["dev1"; "openconfig"; "a"; "y"], SInt 7)] /\
+  selects ["dev1"] (stamp_paths "dev1" (replay Refuted.s_sessions))
+    = [(["dev1"; "openconfig"; "a"; "y"], SInt 7)].
+Proof. exact Refuted.reconnect_example. Qed.
+Print Assumptions C01_relay_reconnect_example.
 
 (** outside prefix-freeness: a notification that deletes a leaf and writes below
     it is applied updates-first by the cache (gNMI: deletes first) and the
